@@ -80,11 +80,11 @@ func vassert(c bool, msg string) {
 	}
 }
 
-func vcover(tag string)            { vCovers = append(vCovers, tag) }
+func vcover(tag string)             { vCovers = append(vCovers, tag) }
 func vobserve(tag string, v uint64) { vObs = append(vObs, vObsVal{tag, v}) }
-func vtier() int                   { return vTier }
-func vbound(n int)                 {}
-func vblocked()                    { panic(vBlocked{}) }
+func vtier() int                    { return vTier }
+func vbound(n int)                  {}
+func vblocked()                     { panic(vBlocked{}) }
 
 // vTimeAgo returns an instant d before now.
 func vTimeAgo(d time.Duration) time.Time { return time.Now().Add(-d) }
